@@ -94,7 +94,10 @@ def gen_program(rng):
     elif r < 0.86:
       ops.append({'k': 'request', 'p': gen.sample_point(rng, S.SPACE_DESC)})
     elif r < 0.91:
-      ops.append({'k': 'md', 't': rng.choice([None, None, tid]), 'ns': rng.choice(['', 'a', 'a:b']), 'key': rng.choice(['k', 'k2']), 'v': rng.choice(['v', ''])})
+      # 'big': a bulky value (tens of kilobytes, e.g. a serialised model) - whatever the
+      # server later says about that trial or study must still travel over the wire
+      ops.append({'k': 'md', 't': rng.choice([None, None, tid, tid]), 'ns': rng.choice(['', 'a', 'a:b']), 'key': rng.choice(['k', 'k2']),
+                  'v': rng.choice(['v', '', 'v', 'big20k', 'big70k'])})
     elif r < 0.94:
       ops.append({'k': 'set_state', 's': rng.choice(['ACTIVE', 'ABORTED', 'COMPLETED'])})
     elif r < 0.96:
@@ -118,7 +121,15 @@ def norm_trial(t):
           'final': None if fm is None else {k: m.value for k, m in fm.metrics.items()},
           'n_meas': len(t.measurements),
           'reason': t.infeasibility_reason,
-          'md': sorted((list(ns), k, str(v)) for ns, k, v in t.metadata.all_items())}
+          'md': sorted((list(ns), k, _short(v)) for ns, k, v in t.metadata.all_items())}
+
+
+def _short(v):
+  v = str(v)
+  if len(v) > 200:
+    import hashlib
+    return f'<{len(v)} chars sha1={hashlib.sha1(v.encode()).hexdigest()[:12]}>'
+  return v
 
 
 def exc_class(e):
@@ -240,7 +251,10 @@ def run_program(ops, owner):
     elif k == 'md':
       def f():
         md = vz.Metadata()
-        md.abs_ns([op['ns']] if op['ns'] else [])[op['key']] = op['v']
+        v = op['v']
+        if v.startswith('big'):
+          v = 'B' * (int(v[3:-1]) * 1000)
+        md.abs_ns([op['ns']] if op['ns'] else [])[op['key']] = v
         if op['t'] is None:
           study.update_metadata(md)
         else:
@@ -265,7 +279,7 @@ def run_program(ops, owner):
       def f():
         c = study.materialize_study_config()
         return {'algo': str(c.algorithm), 'params': sorted(p.name for p in c.search_space.parameters),
-                'md': sorted((list(ns), kk, str(v)) for ns, kk, v in c.metadata.all_items())}
+                'md': sorted((list(ns), kk, _short(v)) for ns, kk, v in c.metadata.all_items())}
       rec(op, f)
   vizier_client.time = real_time
   return trace
